@@ -53,7 +53,7 @@ def main():
         try:
             for p in [prop] + others:
                 t = time.time()
-                rc, out = sh(f"/venv/bin/python harness/check.py --property {p} --tier quick", cwd="/verif", timeout=3000)
+                rc, out = sh(f"VERIF_EVIDENCE_DIR=/tmp/verif_scratch_evidence /venv/bin/python harness/check.py --property {p} --tier quick", cwd="/verif", timeout=3000)
                 lines = [l for l in out.splitlines() if l.startswith("VIOLATION") or l.startswith("  ") or l.startswith("[")]
                 meta["ran"].append({"check": p, "rc": rc, "wall_s": round(time.time() - t, 1), "output": lines[-6:]})
                 print(f"   check {p}: rc={rc}  " + " | ".join(l.strip()[:160] for l in lines[:3]))
